@@ -427,14 +427,33 @@ def register(props):
                      "and on its CBOR round trip, for every schema kind. Protocol layer, server half (unbounded, every client script x "
                      "behaviour oracle x schedule of the server model ATP/Server.v): a work-done for run id r with output o is written "
                      "only for a consumed work-start with run id r whose execution yields o (C05_server_routes_by_run_id; with C07: "
-                     "exactly one per accepted work-start). Client half and composition: end-to-end differential check of the real "
-                     "client and server against the in-process CallStep (this family); the composed protocol model and the theorems "
-                     "C05_refines / C05_rejected_is_error / C05_v1_concurrent_refuted are stated in Properties/C05.v and added at "
-                     "integration.")
+                     "exactly one per accepted work-start). Protocol layer, client half and COMPOSITION (unbounded; model "
+                     "ATP/System.v = client model ATP/Client.v x server model ATP/Server.v x the two FIFO streams, the client "
+                     "model's scripted peer replaced by the real server model; every number of calls, every input token, every "
+                     "behaviour oracle, every schedule incl. every read-ahead and pipe chunking; inductive invariants, no bounded "
+                     "sweep): C05_never_cross_delivered - in EVERY reachable state, with or without Close, what Execute i has "
+                     "returned is spec_callstep of call i's own input; C05_every_execute_returns - in a session without Close a "
+                     "state with no enabled label has every Execute returned (the client model's conservation invariant `inv` is "
+                     "re-used through the abstraction 'plan := what the server still owes': the server model refines the client "
+                     "model's healthy peer; server accounting TermInv + server_idle); C05_refines = the two together: every "
+                     "maximal execution ends with result i = CallStep(input i); C05_rejected_is_error (rejected input = that "
+                     "run's ErrStep, handler not reached); C05_client_routes_by_run_id (client model alone against an arbitrary "
+                     "environment that delivers terminal messages of the calls in any order and multiplicity: work-starts carry "
+                     "the caller's run id and input, results are filed by run id); C05_v1_concurrent_refuted (D26 witness in the "
+                     "minimal v1 model). Non-vacuity: a 3-call overlapping session with read-ahead evaluated by vm_compute to a "
+                     "final state. The end-to-end differential check of the real client and server against the in-process "
+                     "CallStep (this family) ties the composition to the code.")
     entry.setdefault("level_note",
                      "The interpreter (Interp/RunAtpxp.v) predicts each Execute result as cbor_norm of the recorded in-process "
                      "result; the harness re-checks that record against CallStep at run time (inproc-agrees); lib/props_c05.py "
-                     "re-implements the normalisation for the direct check.")
+                     "re-implements the normalisation for the direct check. PARTIAL in the protocol layer: (1) progress / "
+                     "C05_refines are proved for sessions in which the harness does not call Close (the safety half holds with "
+                     "Close; missing: the FIFO-order invariant 'no work-start behind client-done'); (2) the payload of the "
+                     "composition is an abstract token (the data layer - cbor_norm on both legs - is the separate theorem "
+                     "C05_norm_invariant; the two are not composed into one statement over gval); every Execute of the client model "
+                     "calls step id \"s\" (unknown step ids are the behaviour BFails); (3) run ids must be non-empty: Execute itself "
+                     "rejects a blank run id before anything is written (atp/client.go), which the client model does not represent; "
+                     "(4) v1 is modelled minimally (in-order sequential server), only the refutation is proved.")
     entry.setdefault("design_ref", "DESIGN.md §5 C05")
     entry.setdefault("trusted", [])
     entry["trusted"] += ["the session driver (harness/cmd/harness/c05_transparent.go): transports with scripted fragmentation, the "
